@@ -122,14 +122,17 @@ def purity(ctx: Ctx, tagify_ok: bool, rule: str = "C08.pure", report_globals: bo
         # established by C08.copy above: mutable elements of a tagify() result are fresh objects
         O.override_returns["TagList.tagify"] = {"elems_fresh": True}
         O.override_returns["Tag.tagify"] = {"elems_fresh": True}
-    O.solve(list(ENTRIES))
+    # an override of a special method that was removed is not an entry point any more (the inherited method answers; the
+    # equality / delegation obligations look at what is inherited)
+    entries = [q for q in ENTRIES if not (q.split(".")[-1] in ("__eq__", "__str__", "__repr__", "_repr_html_") and not ctx.prog.has_function(CORE, q))]
+    O.solve(list(entries))
     errs = [(q, O.sums[q].error) for q in O.analysed if O.sums[q].error]
     ctx.require(not errs, "ownership analysis cannot model: " + "; ".join(f"{q}: {e}" for q, e in errs[:3]))
     ctx.count("functions in the read-only closure", len(O.analysed))
     ctx.count("call sites resolved", O.resolved_calls)
     ctx.count("external calls assumed pure", O.unresolved_calls)
     ctx.min_count("functions analysed for purity", len(O.analysed), 30)
-    for q in ENTRIES:
+    for q in entries:
         ctx.require(q in O.sums, f"anchor vanished: {q}")
         sm = O.sums[q]
         where = f"{CORE}:{q}"
@@ -168,6 +171,84 @@ def return_ownership(ctx: Ctx, O: Ownership, rule: str = "C08.copy") -> None:
                   "fields of the returned object", f"the object returned by {q} shares its attribute map or child list with the original")
     sm = O.sums.get("Tag.__copy__")
     ctx.require(sm is not None, "Tag.__copy__ vanished")
+
+
+def copy_field_kinds(ctx: Ctx, I: Interp, rule: str = "C08.copy") -> None:
+    """copy(tag) is a Tag whose attribute map is still a TagAttrDict and whose child list is still a TagList (so that every
+    operation of the original works on the copy - render()/tagify() hand such copies out)."""
+    prog = ctx.prog
+    where = f"{CORE}:Tag.__copy__"
+    fn = prog.function(CORE, "Tag.__copy__")
+    cfg = Config()
+    cfg.opaque_all = True
+
+    def mk(run: Any):
+        s = SObj("self", {"TAG"})
+        return ({fn.args.args[0].arg: s}, s)
+
+    from ..eval_call import _is_dict_copy_idiom
+    if _is_dict_copy_idiom(fn):
+        ctx.ok(rule, "Tag.__copy__ copies every instance field with copy(): field classes are preserved")
+        return
+    n = 0
+    for l in I.run_function(CORE, "Tag.__copy__", mk, cfg):
+        if l.kind != "return":
+            continue
+        n += 1
+        v = l.value
+        meta = v.meta if isinstance(v, SObj) else v.__dict__.get("meta", {}) if isinstance(v, SNew) else {}
+        if (meta or {}).get("copy_mode") == "fieldwise":
+            ctx.ok(rule, "Tag.__copy__ copies every instance field with copy(): field classes are preserved")
+            continue
+        for fld, want in (("attrs", "TAGATTRDICT"), ("children", "TAGLIST")):
+            fv = getattr(v, "attrs", {}).get(fld)
+            ks = fv.kinds if isinstance(fv, SObj) else ({"TAGLIST"} if isinstance(fv, SNew) and fv.cls_name == "TagList" else {"TAGATTRDICT"} if isinstance(fv, SNew) and fv.cls_name == "TagAttrDict" else None)
+            ctx.check(ks is not None and set(ks) <= {want}, rule, f"the copy's .{fld} is a {want.lower()}", where, f"copy.{fld} = {short(fv)}",
+                      f"Tag.__copy__ gives the copy a `.{fld}` that is {short(fv)}, not an object of the original's class: methods of that class "
+                      f"(two-argument update(), merging, normalisation) are missing on copies handed out by tagify()/render()",
+                      witness="t = div(class_='a').tagify(); t.add_class('b')")
+    ctx.min_count("Tag.__copy__ paths", n, 1)
+
+
+def tag_tagify_shape(ctx: Ctx, I: Interp, rule: str = "C08.copy") -> None:
+    """Tag.tagify(): the result is the copy with its child list expanded and nothing else changed (name, attributes and the
+    whitespace flag of the copy are those of the original on every path)."""
+    prog = ctx.prog
+    where = f"{CORE}:Tag.tagify"
+    fn = prog.function(CORE, "Tag.tagify")
+    cfg = Config()
+    cfg.opaque_all = True
+    cfg.coarse_counts = True
+
+    def mk(run: Any):
+        s = SObj("self", {"TAG"})
+        run.__dict__["s"] = s
+        return ({fn.args.args[0].arg: s}, s)
+
+    n = 0
+    for l in I.run_function(CORE, "Tag.tagify", mk, cfg):
+        if l.kind != "return":
+            continue
+        n += 1
+        s = l.run.__dict__["s"]
+        v = l.value
+        stores = [e for e in l.effects if e.kind in ("store_attr", "del_attr") and e.target is v]
+        other = [e for e in stores if e.key != "children"]
+        labels = [str(lbl) for _, lbl in l.atoms][:3]
+        ctx.check(not other, rule, "Tag.tagify changes nothing of the copy besides its child list", where,
+                  f"path {labels}: stores {[e.key for e in stores]}",
+                  f"Tag.tagify sets `{other[0].key if other else ''}` on the copy (path {labels}): the tree that render()/str() lay out differs from the original "
+                  f"in more than the expansion of its tagifiable children", witness="str(span('a', div('b'))) vs span('a', div('b')).get_html_string()")
+        ch = [e for e in stores if e.key == "children"]
+        okc = len(ch) == 1 and isinstance(ch[0].value, (SObj, SOpaque)) and _q_call(ch[0].value).endswith("TagList.tagify")
+        ctx.check(okc, rule, "the copy's children are <children>.tagify()", where, f"children := {short(ch[0].value) if ch else None}",
+                  "Tag.tagify does not replace the copy's child list by its tagify() result")
+    ctx.min_count("Tag.tagify paths", n, 1)
+
+
+def _q_call(v: Any) -> str:
+    c = v.meta.get("call") if isinstance(v, SObj) else v.__dict__.get("call") if isinstance(v, SOpaque) else None
+    return getattr((c or {}).get("func"), "qual", "") or ""
 
 
 def render_uses_copy(ctx: Ctx, I: Interp) -> None:
@@ -288,7 +369,13 @@ def equality(ctx: Ctx, I: Interp) -> None:
         where = f"{CORE}:{cls}.__eq__"
         ci = prog.get_class(cls)
         m = prog.find_method(ci, "__eq__")
-        ctx.require(m is not None and m[0].module.name == CORE, f"{cls} defines no __eq__")
+        if m is None or m[0].module.name != CORE:
+            inh = f"{m[0].name}.__eq__" if m is not None else "object.__eq__ (identity)"
+            ctx.fail("C08.eq", f"{CORE}:{cls}", f"{cls} has no __eq__ of its own: {inh} answers",
+                     f"{cls} no longer defines __eq__, so == is {inh}: " + ("a UserList compares equal to any list or UserList with equal items, whatever its class"
+                                                                          if m is not None and m[0].name == "UserList" else "structurally identical objects are no longer equal / kinds are not checked"),
+                     witness="TagList('a') == ['a']" if cls == "TagList" else None)
+            continue
         fn = m[1]
         cfg = Config()
         cfg.opaque_all = True
@@ -569,6 +656,8 @@ def check(ctx: Ctx) -> None:
     ok = tagify_table(ctx, I)
     O = purity(ctx, ok)
     return_ownership(ctx, O)
+    tag_tagify_shape(ctx, I)
+    copy_field_kinds(ctx, I)
     render_uses_copy(ctx, I)
     delegation(ctx, I)
     equality(ctx, I)
